@@ -1,7 +1,8 @@
 #!/bin/bash
 # Sensitivity regression without touching /repo: like check_seeded.sh, but every seeded change is
 # applied to one of N scratch worktrees of /repo (tools/try_mutant_iso.sh with ISO_SUFFIX=1..N),
-# N at a time. usage: check_seeded_par.sh [N]   (prints one line per seeded change, sorted)
+# N at a time. usage: [LIVE=<file>] check_seeded_par.sh [N]   (prints one line per seeded change,
+# sorted, at the end; with LIVE set every result is also appended to that file as it arrives)
 cd /verif
 N=${1:-3}
 ids=$(ls -d seeded/*/ | xargs -n1 basename)
@@ -17,7 +18,7 @@ one() {
 }
 tmp=$(mktemp -d /var/tmp/seedreg.XXXX)
 for k in $(seq 1 $N); do
-  ( i=0; for id in $ids; do i=$((i+1)); if [ $((i % N)) -eq $((k % N)) ]; then one $id $k; fi; done > $tmp/$k.txt ) &
+  ( i=0; for id in $ids; do i=$((i+1)); if [ $((i % N)) -eq $((k % N)) ]; then one $id $k | tee -a "${LIVE:-/dev/null}"; fi; done > $tmp/$k.txt ) &
 done
 wait
 cat $tmp/*.txt | sort
